@@ -43,6 +43,23 @@ void x_vf_range_cb(uint32_t seq, uint8_t *data, uint32_t len, uint32_t no_more)
   cb_prev = seq; cb_n++;
 }
 uint8_t cx_op[K]; uint32_t cx_a[K], cx_b[K]; uint8_t cx_d0[K], cx_d1[K], cx_len[K];
+/* -DHAVOC_OFFSETS (inductive use): before every operation the two descriptors sit at ANY position an earlier history could have
+   left them at - data file: after any stored record (a get of that record leaves it there; the last record's end = file end = after a
+   put); index file: after the control slot (a control put) or at the end (a message put / the index replay of initialise). The
+   sequence prefix only builds a representative state (map of <= K-1 records + control record); one operation from such a state with
+   arbitrary reachable positions, followed by the read-back probe (-DFINAL_PROBE), covers histories of any length that reach it. */
+uint32_t cx_hd[K + 1]; uint8_t cx_hi[K + 1]; uint32_t cx_probe;
+static uint32_t r_end[MAXSEQ + 1], r_dlen;          /* data-file offset right after each stored record; data-file length */
+static void havoc_offsets(int i)
+{
+#ifdef HAVOC_OFFSETS
+  uint32_t hs = nondet_u32(); uint8_t hi = nondet_u8(); VF_ASSUME(hs <= MAXSEQ && hi <= 2 && (hs == 0 || r_has[hs]));
+  cx_hd[i] = hs; cx_hi[i] = hi;
+  uint32_t fod = vf_fp_fod(&the_fp), iod = vf_fp_iod(&the_fp);
+  if (hs) vf_fs_set_offset(fod, r_end[hs]);
+  if (hi == 1 && r_hasc) vf_fs_set_offset(iod, 16); else if (hi == 2) vf_fs_set_offset(iod, vf_fs_filelen(iod));
+#endif
+}
 int main(void)
 {
   vf_fp_ctor(&the_fp, 0);
@@ -61,12 +78,13 @@ int main(void)
     len = LENC;
 #endif
     cx_op[i] = op; cx_a[i] = a; cx_b[i] = b; cx_d0[i] = d0; cx_d1[i] = d1; cx_len[i] = len;
+    havoc_offsets(i);
     uint32_t last = 0; for (uint32_t s = 1; s <= MAXSEQ; s++) if (r_has[s]) last = s;
     if (HAS(0) && op == 0) {           /* put(seq, bytes) */
       uint8_t d[2] = { d0, d1 };
       uint8_t ok = vf_fp_put(&the_fp, a, d, len) & 1;
       VF_ASSERT(ok == (a != 0 && !r_has[a]), "C26: storing to 0 or to an occupied number is refused, otherwise accepted");
-      if (a != 0 && !r_has[a]) { r_has[a] = 1; r_len[a] = len; r_dat[a][0] = d0; r_dat[a][1] = d1; }
+      if (a != 0 && !r_has[a]) { r_has[a] = 1; r_len[a] = len; r_dat[a][0] = d0; r_dat[a][1] = d1; r_dlen += len; r_end[a] = r_dlen; }
     } else if (HAS(1) && op == 1) {    /* control put */
       VF_ASSUME(b <= 1000);
       uint8_t ok = vf_fp_putc(&the_fp, a, b) & 1; r_hasc = 1; r_ca = a; r_cb = b;
@@ -98,6 +116,19 @@ int main(void)
     }
     VF_ASSERT(!__vf_exc_pending, "C26: no exception"); __vf_exc_pending = 0;
   }
+#ifdef FINAL_PROBE   /* the state after the last operation: every stored record still reads back, nothing else appears, control record intact */
+  {
+    havoc_offsets(K);
+    uint32_t s = nondet_u32(); VF_ASSUME(s >= 1 && s <= MAXSEQ); cx_probe = s;
+    uint8_t out[8]; int n = (int)vf_fp_get(&the_fp, s, out);
+    VF_ASSERT((n >= 0) == (r_has[s] != 0), "C26: after the operation exactly the stored numbers can be retrieved");
+    if (r_has[s]) VF_ASSERT(n == r_len[s] && out[0] == r_dat[s][0] && (n < 2 || out[1] == r_dat[s][1]), "C26: after the operation every stored record still reads back byte-identical");
+    uint32_t ga = 0, gb = 0; uint8_t ok = vf_fp_getc(&the_fp, &ga, &gb) & 1;
+    VF_ASSERT(ok == r_hasc && (!r_hasc || (ga == r_ca && gb == r_cb)), "C26: after the operation the control record is the last one stored");
+    VF_ASSERT(vf_fs_filelen(vf_fp_fod(&the_fp)) == r_dlen, "C26: the data file holds exactly the stored records (no gap, no overlap)");
+    VF_ASSERT(!__vf_exc_pending, "C26: no exception"); __vf_exc_pending = 0;
+  }
+#endif
   VF_REACH();
   return 0;
 }
